@@ -310,9 +310,44 @@ pub fn run(data: &[u8], ctx: &mut Ctx) -> Outcome {
             check!(ctx, seen.insert(rm.digest()), "salted-obscured", &format!("{}/repeat", okey), "two independent salted adds of an {} assertion gave the same digest", fname);
         }
         ctx.nontrivial = true;
-        return Outcome::Pass;
+    }
+    // --- the array form with several assertions (drawn last): every assertion gets a salt of its own,
+    // sized for that assertion; the batch is what adding them one by one gives (up to the random bytes)
+    if src.chance(50) {
+        let nb = 2 + src.below(3);
+        let mut batch: Vec<Envelope> = Vec::new();
+        for j in 0..nb {
+            // very different sizes: 10 bytes .. a few KB
+            let len = [0usize, 3, 40, 700, 3000][src.below(5)];
+            batch.push(Envelope::new_assertion(format!("batch-{}-{}", j, src.below(10)), "x".repeat(len)));
+        }
+        ctx.class(&format!("salted-batch:{}", nb));
+        let bkey = "C17/add_assertions_salted/batch";
+        let r = nopanic!(ctx, e.add_assertions_salted(&batch, true), "salted-batch", bkey);
+        let rm = nopanic!(ctx, check_digests(&r), "salted-batch", bkey);
+        let rm = tryp!(ctx, rm, "salted-batch", bkey);
+        let old: BTreeSet<_> = m.assertions().iter().map(|a| a.digest()).collect();
+        let new: Vec<&M> = rm.assertions().iter().filter(|a| !old.contains(&a.digest())).collect();
+        check!(ctx, new.len() == nb && rm.assertions().len() == m.assertions().len() + nb, "salted-batch", &format!("{}/shape", bkey), "a salted batch of {} distinct assertions added {} elements", nb, new.len());
+        let mut salts: BTreeSet<Vec<u8>> = BTreeSet::new();
+        for b in &batch {
+            let bd = bridge::d32(&b.digest());
+            let found: Vec<&&M> = new.iter().filter(|x| matches!(x, M::Node(s, _) if s.digest() == bd)).collect();
+            check!(ctx, found.len() == 1, "salted-batch", &format!("{}/shape", bkey), "assertion {} of the batch is not present exactly once as a salted assertion", b.format_flat());
+            if let M::Node(_, a) = found[0] {
+                check!(ctx, a.len() == 1, "salted-batch", &format!("{}/shape", bkey), "a batch assertion carries {} assertions, expected one salt", a.len());
+                let l = tryp!(ctx, salt_len(&a[0]), "salted-batch", &format!("{}/shape", bkey));
+                let (lo, hi) = salt_range_for(b.to_cbor_data().len() - 2);
+                let (lo2, hi2) = salt_range_for(b.to_cbor_data().len());
+                check!(ctx, l >= lo.min(lo2) && l <= hi.max(hi2), "salted-batch", &format!("{}/length", bkey), "in a salted batch, the assertion of {} serialised bytes got a salt of {} bytes; its own size gives {}..={}", b.to_cbor_data().len(), l, lo.min(lo2), hi.max(hi2));
+                check!(ctx, salts.insert(a[0].tagged()), "salted-batch", &format!("{}/shared-salt", bkey), "two assertions of one salted batch carry the same salt bytes");
+            }
+        }
+        ctx.nontrivial = true;
     }
     let _ = e.digest();
-    ctx.nontrivial = size >= 200 || op >= 5;
+    if size >= 200 || op >= 5 {
+        ctx.nontrivial = true;
+    }
     Outcome::Pass
 }
